@@ -198,7 +198,8 @@ def _c_linear(chk):
 
         def sub_lin(ip_, a, k):
             got["matrix"] = a[1]
-            return sp.Symbol("P")
+            got["out"] = [to_obj_array([sp.Symbol("c0_0")]), to_obj_array([sp.Symbol(f"c1_{i}") for i in range(3)])]
+            return [x.copy() for x in got["out"]]
 
         def sub_coord(ip_, a, k):
             got["matrix"] = a[1]
@@ -207,7 +208,12 @@ def _c_linear(chk):
         ipx = Interp(overrides={"_substitute_linear": sub_lin, "_substitute_coordinates": sub_coord,
                                 "_polynomial_clean": lambda ip_, a, k: a[0], "_clean_coordinates": lambda ip_, a, k: a[0],
                                 "_create_encode_dict_from_clmo": lambda ip_, a, k: sp.Symbol("enc")})
-        ipx.call_function(TR, fname, args, kwargs)
+        res = ipx.call_function(TR, fname, args, kwargs)
+        if "out" in got:
+            same = isinstance(res, list) and len(res) == len(got["out"]) and all(list(to_obj_array(x)) == list(y) for x, y in zip(res, got["out"]))
+            chk.check(same, "C18.c", f"{TR}::{fname}[result]",
+                      f"{fname} does not return the substituted polynomial unchanged (generic complex coefficients): {[list(to_obj_array(x)) for x in res] if isinstance(res, list) else res}",
+                      sample=f"{fname}: result == _substitute_linear(...) up to magnitude-based cleaning")
         return got.get("matrix")
 
     M12 = to_obj_array(ip.call_function(TR, "_M", [(1, 2)]))
